@@ -203,27 +203,37 @@ theorem litMeta_litOnly (m : List (Bytes × Bytes)) : LitOnly (litMeta m) := by
   obtain ⟨a, b, _, rfl⟩ := hkv
   exact ⟨b, rfl⟩
 
-theorem flushProducer_eq : ∀ l : List OBatch, flushProducer l = l.map toR
+/-- how the producer flush writes a collected batch -/
+def toRP : OBatch → RBatch
+  | .log m => .log m
+  | .data vs md => .data vs (litMeta (emitUserMeta md))
+
+theorem flushProducer_eq : ∀ l : List OBatch, flushProducer l = l.map toRP
   | [] => rfl
-  | .log m :: r => by simp [flushProducer, toR, flushProducer_eq r]
-  | .data vs md :: r => by simp [flushProducer, toR, flushProducer_eq r]
+  | .log m :: r => by simp [flushProducer, toRP, flushProducer_eq r]
+  | .data vs md :: r => by simp [flushProducer, toRP, flushProducer_eq r]
 
 theorem toR_litOnly (b : OBatch) : LitOnly (rbMeta (toR b)) := by
   cases b with
   | log m => intro kv h; simp [toR, rbMeta] at h
   | data vs md => simpa [toR, rbMeta] using litMeta_litOnly md
 
+theorem toRP_litOnly (b : OBatch) : LitOnly (rbMeta (toRP b)) := by
+  cases b with
+  | log m => intro kv h; simp [toRP, rbMeta] at h
+  | data vs md => simpa [toRP, rbMeta] using litMeta_litOnly (emitUserMeta md)
+
 theorem flushed_lit (l : List OBatch) : ∀ b ∈ flushProducer l, LitOnly (rbMeta b) := by
   intro b hb
   rw [flushProducer_eq] at hb
   obtain ⟨o, _, rfl⟩ := List.mem_map.mp hb
-  exact toR_litOnly o
+  exact toRP_litOnly o
 
 theorem flushed_noexc (l : List OBatch) (e : Err) : RBatch.exc e ∉ flushProducer l := by
   intro hb
   rw [flushProducer_eq] at hb
   obtain ⟨o, _, ho⟩ := List.mem_map.mp hb
-  cases o <;> simp [toR] at ho
+  cases o <;> simp [toRP] at ho
 
 theorem exc_litOnly (e : Err) : ∀ b ∈ [RBatch.exc e], LitOnly (rbMeta b) := by
   intro b hb kv hkv
@@ -344,5 +354,95 @@ theorem handleExchange_cases (cfg : Cfg) (w : World) (req : Req) :
                   · cases he : req.exact <;> cases hd : cur.declared <;> cases hs : req.schemaOk <;>
                       cases hdy : req.dynamic <;> simp_all
                   · simp [hrp', hdc]
+
+/-! ### The token merge -/
+
+theorem getFirst_append_of_no_key (k : Bytes) : ∀ (a b : Meta), (∀ kv ∈ a, kv.1 ≠ k) →
+    getFirst k (a ++ b) = getFirst k b
+  | [], _, _ => rfl
+  | x :: r, b, h => by
+    have hx := h x (by simp)
+    simp only [List.cons_append, getFirst, hx, if_false]
+    exact getFirst_append_of_no_key k r b (fun kv hkv => h kv (by simp [hkv]))
+
+/-- the cursor wins: whatever metadata the emit carried (a `MetaStreamState` entry included), a
+`GetValue(MetaStreamState)` on the merged metadata yields the fresh cursor -/
+theorem getFirst_mergeToken (tok : Val) (md : List (Bytes × Bytes)) :
+    getFirst keyState (mergeToken tok md) = some tok := by
+  unfold mergeToken
+  rw [getFirst_append_of_no_key]
+  · simp [getFirst]
+  · intro kv hkv
+    simp only [litMeta, emitUserMeta, List.mem_map, List.mem_filter] at hkv
+    obtain ⟨a, ⟨_, ha⟩, rfl⟩ := hkv
+    simp only [Bool.and_eq_true, bne_iff_ne, ne_eq] at ha
+    exact ha.1
+
+
+/-! ### One producer turn against the whole stream -/
+
+theorem extPreflight_off {cfg : Cfg} (h : cfg.maxExt = 0) (c : Coll) (te : TickEnv) (a : Nat) :
+    extPreflight cfg c te a = false := by
+  simp [extPreflight, h]
+
+theorem has_data {c : Coll} (h1 : ¬(!c.finished && c.dataIdx.isNone) = true) (h3 : ¬c.finished = true) :
+    ¬ c.dataIdx = none := by
+  intro hn
+  apply h1
+  cases hf : c.finished
+  · simp [hn]
+  · exact absurd hf h3
+
+/-- One turn against the whole stream (`fullRun`), with no external cap in force: a turn that ends
+the stream delivered exactly the whole rest of the stream with the same outcome; a turn that stops
+early delivered a proper prefix made of whole cycles, and the rest of the stream is exactly the
+stream of the state it left behind. -/
+theorem produceLoop_prefix (cfg : Cfg) (hext : cfg.maxExt = 0) : ∀ (ticks : List Tick) (pos : Nat)
+    (first : Option Meta) (nData ext : Nat) (envs : List TickEnv) (body : Nat) (sizes : List Nat),
+    (((produceLoop cfg ticks pos first nData ext envs body sizes).finished = true ∨
+      (produceLoop cfg ticks pos first nData ext envs body sizes).err.isSome = true) ∧
+     (produceLoop cfg ticks pos first nData ext envs body sizes).out = (fullRun ticks).1 ∧
+     (produceLoop cfg ticks pos first nData ext envs body sizes).finished = (fullRun ticks).2.1 ∧
+     (produceLoop cfg ticks pos first nData ext envs body sizes).err = (fullRun ticks).2.2) ∨
+    ((produceLoop cfg ticks pos first nData ext envs body sizes).finished = false ∧
+     (produceLoop cfg ticks pos first nData ext envs body sizes).err = none ∧
+     ∃ k, 0 < k ∧ (produceLoop cfg ticks pos first nData ext envs body sizes).pos = pos + k ∧
+       (fullRun ticks).1 = (produceLoop cfg ticks pos first nData ext envs body sizes).out ++ (fullRun (ticks.drop k)).1 ∧
+       (fullRun ticks).2 = (fullRun (ticks.drop k)).2) := by
+  intro ticks pos first nData ext envs body sizes
+  fun_induction produceLoop cfg ticks pos first nData ext envs body sizes with
+  | case1 => exact Or.inl ⟨Or.inl rfl, rfl, rfl, rfl⟩
+  | case2 t rest pos first nData ext envs body sizes ev c e hr =>
+    exact Or.inl ⟨Or.inr rfl, by simp [fullRun, hr], by simp [fullRun, hr], by simp [fullRun, hr]⟩
+  | case3 t rest pos first nData ext envs body sizes ev c hr h1 =>
+    exact Or.inl ⟨Or.inr rfl, by simp [fullRun, hr, h1], by simp [fullRun, hr, h1], by simp [fullRun, hr, h1]⟩
+  | case4 t rest pos first nData ext envs body sizes ev te c hr h1 h2 =>
+    rw [extPreflight_off hext] at h2; cases h2
+  | case5 t rest pos first nData ext envs body sizes ev te c hr h1 h2 flushed nData' body' up h3 =>
+    exact Or.inl ⟨Or.inl rfl, by simp [fullRun, hr, h1, h3, flushed], by simp [fullRun, hr, h1, h3],
+      by simp [fullRun, hr, h1, h3]⟩
+  | case6 t rest pos first nData ext envs body sizes ev te c hr h1 h2 flushed nData' body' up h3 h4 =>
+    have hd := has_data h1 h3
+    exact Or.inr ⟨rfl, rfl, 1, Nat.one_pos, rfl, by simp [fullRun, hr, h1, h3, hd, flushed], by simp [fullRun, hr, h1, h3, hd]⟩
+  | case7 t rest pos first nData ext envs body sizes ev te c hr h1 h2 flushed nData' body' up h3 h4 h5 =>
+    have hd := has_data h1 h3
+    exact Or.inr ⟨rfl, rfl, 1, Nat.one_pos, rfl, by simp [fullRun, hr, h1, h3, hd, flushed], by simp [fullRun, hr, h1, h3, hd]⟩
+  | case8 t rest pos first nData ext envs body sizes ev te c hr h1 h2 flushed nData' body' up h3 h4 h5 r ih =>
+    have hd := has_data h1 h3
+    rcases ih with ⟨a1, a2, a3, a4⟩ | ⟨b1, b2, k, hk, b3, b4, b5⟩
+    · refine Or.inl ⟨a1, ?_, ?_, ?_⟩
+      · show flushed ++ r.out = _
+        simp [fullRun, hr, h1, h3, hd, flushed]; exact a2
+      · show r.finished = _
+        simp [fullRun, hr, h1, h3, hd]; exact a3
+      · show r.err = _
+        simp [fullRun, hr, h1, h3, hd]; exact a4
+    · refine Or.inr ⟨b1, b2, k + 1, Nat.succ_pos _, ?_, ?_, ?_⟩
+      · show r.pos = _
+        rw [b3]; omega
+      · show _ = (flushed ++ r.out) ++ _
+        simp [fullRun, hr, h1, h3, hd, flushed]; exact b4
+      · simp [fullRun, hr, h1, h3, hd]; exact b5
+
 
 end Vgi.HttpStream
